@@ -75,7 +75,7 @@ SPEC = dict(
         "blocked predicates (SetBlocked/AddBlocked), cleanup handlers, TaskRunner.Stop and handlers that call SetStatus themselves are not modelled",
     ],
     assumptions=["KNOWN FINDING undo-rerun-sees-handlerless-dependent-in-undo: a re-run (after Retry) of an undo handler can see a halt task without undo handler in Undo; reported by the monitor, classified by recomputing the whole monitor in checks/c02.py; map-order dependent, provoked by a scripted 7-task history (met unless Go's map order visits 5,4,3,2,1,0 in exactly that relative order: 1 in 720)",
-                 "proved over all graphs and event lists: fresh starts see their prerequisites Done / ready and the gate open; over all histories with user aborts on unready changes only and no model fuel bound hit: EVERY do start (fresh or re-run) sees all wait tasks Done. PARTIAL: sufficiency of the model's fuel bounds is not proved (a hit is a correspondence mismatch); the undo side holds for fresh starts only, re-runs are refuted (C02_undo_rerun_refuted, the known finding)",
+                 "proved over all graphs and event lists: fresh starts see their prerequisites Done / ready and the gate open; over all histories with user aborts on unready changes only: EVERY do start (fresh or re-run) sees all wait tasks Done (no fuel hypothesis: the model's fuel bounds are proved sufficient). PARTIAL: the undo side holds for fresh starts only, re-runs are refuted (C02_undo_rerun_refuted, the known finding)",
                  "handlers return nil, an error, *Retry or *Wait and do not change task statuses themselves",
                  "time is the mocked timeNow of the state package; Task.At is only set through Retry.After"],
 )
